@@ -1231,6 +1231,7 @@ def d_cases(tier):
                         out.append(["D", "mintegrate", ctor, pkx, pki, lkx, lki, R, fi])
     for ck in D_CHAIN_KINDS:
         out.append(["D", "chain", ck])
+    out.extend(tr_cases(tier))
     return out
 
 
@@ -1312,6 +1313,8 @@ def d_feats(case):
         return {"op": op, "var": case[2], "point": case[3], "log_density": case[4]}
     if op in ("msubs", "mreduce", "mintegrate"):
         return {"op": op, "ctor": case[2], "point": case[3] + "+" + case[4], "log_density": case[5] + "+" + case[6]}
+    if op == "tsubs":
+        return {"op": op, "mode": case[2], "transform": "+".join(case[3]), "point": case[4], "log_density": case[5]}
     return {"op": op, "kind": str(case[2])}
 
 
@@ -1336,6 +1339,8 @@ def check_D(case, seed):
             return d_check_reduce(key, case, seed, ns, terms, list(R), f, op[1:], ctor)
         if op == "chain":
             return d_check_chain(key, case, seed, ns, A)
+        if op == "tsubs":
+            return d_check_tsubs(key, case, seed, ns, A)
     except UnownedRandomness as e:
         return core.skip(key, "unowned-random:" + str(e)[:60])
     raise ValueError(case)
@@ -1546,6 +1551,202 @@ def d_check_msubs(key, case, seed, ns, A):
     if bad is not None:
         return bad
     return core.ok(key, True, "D:msubs:%s:%s" % (sk, type(r).__name__.split("[")[0]), 3)
+
+
+# -- transform substitution: Delta('y', p, c)(y = t(x)) for the invertible transforms solve() handles ---------
+#
+# funsor's convention (confirmed on the pinned tree, test_delta.py::test_transform_exp/log): the result is a Delta on
+# x at x0 = t^-1(p) with log-density c + log|dt/dx|(x0).  The reference uses textbook derivatives, never
+# op.log_abs_det_jacobian.
+
+TR = OrderedDict([
+    # name: (code of t(arg), t, log|t'|)
+    ("exp", ("ops.exp(%s)", np.exp, lambda v: v)),
+    ("log", ("ops.log(%s)", np.log, lambda v: -np.log(v))),
+    ("tanh", ("ops.tanh(%s)", np.tanh, lambda v: np.log(1.0 - np.tanh(v) ** 2))),
+    ("atanh", ("ops.atanh(%s)", np.arctanh, lambda v: -np.log(1.0 - v ** 2))),
+    ("sigmoid", ("ops.sigmoid(%s)", _sig, lambda v: np.log(_sig(v) * (1.0 - _sig(v))))),
+])
+TR_AFFINE = OrderedDict([("scale", "%s * 2.0"), ("shift", "%s + 1.0")])  # not handled by solve(): declines
+TR_LDS = ["omit", "zero", "num", "t0", "tb", "tc"]
+_TR_INTEGRATED = [0]
+
+
+def tr_cases(tier):
+    out = []
+    names = list(TR)
+    for t in names + list(TR_AFFINE):
+        for pk in ("t0", "tb", "v2"):
+            for lk in TR_LDS:
+                out.append(["D", "tsubs", "single", [t], pk, lk])
+    for t1 in names:
+        for t2 in names:
+            for mode in ("compose", "chain"):
+                for pk in ("t0", "tb"):
+                    for lk in ("zero", "num", "tb"):
+                        out.append(["D", "tsubs", mode, [t1, t2], pk, lk])
+    for t in names:
+        for mode in ("two-y", "two-both"):
+            for lk in ("zero", "num", "tb"):
+                out.append(["D", "tsubs", mode, [t], "t0", lk])
+    return out
+
+
+def d_check_tsubs(key, case, seed, ns, A):
+    from funsor.delta import Delta
+
+    _, _, mode, ts, pk, lk = case
+    site = "Delta.eager_subs"
+    feats = {"op": "tsubs", "mode": mode, "transform": "+".join(ts), "point": pk, "log_density": lk}
+    # the point is p = t(x*), x* generic in (0.5, 0.9): inside the domain of every transform
+    if pk == "t0":
+        xstar, pin, pcode_in = 0.5 + 0.4 * (generic_fill(70, (), seed) - 0.5) / 1.5, [], "OrderedDict()"
+    elif pk == "tb":
+        xstar, pin, pcode_in = 0.5 + 0.4 * (generic_fill(71, (2,), seed) - 0.5) / 1.5, ["b"], "B2"
+    else:
+        xstar, pin, pcode_in = 0.5 + 0.4 * (generic_fill(72, (2,), seed) - 0.5) / 1.5, [], "OrderedDict()"
+    xstar = np.asarray(xstar, dtype=np.float64)
+    dom = "Reals[2]" if pk == "v2" else "Real"
+    affine = ts[0] in TR_AFFINE
+    # forward map and total log|Jacobian| at the solution, by the textbook formulas
+    with np.errstate(all="ignore"):
+        if affine:
+            pval, ldj = (xstar * 2.0 if ts[0] == "scale" else xstar + 1.0), None
+            tcode = TR_AFFINE[ts[0]] % "xx"
+        elif len(ts) == 1:
+            code, fwd, lad = TR[ts[0]]
+            pval, ldj, tcode = fwd(xstar), lad(xstar), code % "xx"
+        else:
+            (c1, f1, l1), (c2, f2, l2) = TR[ts[0]], TR[ts[1]]
+            mid = f2(xstar)  # y = t1(t2(x))
+            pval, ldj = f1(mid), l1(mid) + l2(xstar)
+            tcode = c1 % (c2 % "xx")
+    if pk == "v2" and ldj is not None:
+        ldj = np.asarray(ldj).sum()
+    if not np.all(np.isfinite(pval)) or (ldj is not None and not np.all(np.isfinite(ldj))):
+        return core.skip(key, "reference-undefined:composition-outside-domain")
+    ld = d_ld({"omit": "zero"}.get(lk, lk), A)
+    ldcode = None if lk == "omit" else (ld["code"] or "Number(0.0)")
+    pcode = "Tensor(%s, %s)" % (lit(pval), pcode_in)
+    lines = ["xx = Variable('x', %s); zz = Variable('z', %s)" % (dom, dom)]
+    two = mode.startswith("two")
+    if two:
+        # second Delta variable v (point q, log-density 0.25); 'two-both' substitutes v = log(u) as well
+        q = float(generic_fill(73, (), seed))
+        dcode = lambda lc: "Delta((('y', (%s, %s)), ('v', (Tensor(%s), Number(0.25)))))" % (  # noqa: E731
+            pcode, lc or "Number(0.0)", lit(np.asarray(q)))
+    else:
+        dcode = lambda lc: ("Delta('y', %s)" % pcode) if lc is None else "Delta('y', %s, %s)" % (pcode, lc)  # noqa: E731
+    tx = tcode
+    if mode == "chain":
+        c1, c2 = TR[ts[0]][0], TR[ts[1]][0]
+        sub = "(y=%s)(x=%s)" % (c1 % "xx", c2 % "zz")
+        out_name = "z"
+    elif mode == "two-both":
+        sub = "(y=%s, v=ops.log(Variable('u', Real)))" % tx
+        out_name = "x"
+    else:
+        sub = "(y=%s)" % tx
+        out_name = "x"
+    lines.append("r = %s%s" % (dcode(ldcode), sub))
+    lines0 = [lines[0], "r = %s%s" % (dcode(None if not two else "Number(0.0)"), sub)]
+    try:
+        r = d_run(ns, lines)
+        r0 = d_run(ns, lines0)
+    except UnownedRandomness:
+        raise
+    except Exception as e:  # noqa
+        return core.decline(key, "raised:" + type(e).__name__, 1)
+    snip = lambda: d_snippet(seed, lines)  # noqa: E731
+
+    def viol(what, msg):
+        return core.violation(key, site, msg + "\n  " + lines[-1], case, dict(feats, what=what), snip(), transitions=4)
+
+    # (b) structure and inputs: a Delta on the transform's variable (+ v/u), inputs = that variable + batch inputs
+    if not isinstance(r, Delta) or not isinstance(r0, Delta):
+        return core.decline(key, "lazy:" + type(r).__name__.split("[")[0], 2)
+    terms, terms0 = OrderedDict(r.terms), OrderedDict(r0.terms)
+    want_names = {out_name} | ({"u"} if mode == "two-both" else {"v"} if two else set())
+    if set(terms) != want_names or set(terms0) != want_names:
+        return viol("inputs", "result binds %s, expected %s" % (sorted(terms), sorted(want_names)))
+    allowed = want_names | set(pin) | set(ld["inputs"])
+    if not set(r.inputs) <= allowed or not want_names <= set(r.inputs):
+        return viol("inputs", "result inputs %s, expected %s (+ batch inputs %s)" % (
+            sorted(r.inputs), sorted(want_names), sorted(allowed - want_names)))
+    rho_inputs = {n: D_FREE[n] for n in set(pin) | set(ld["inputs"])}
+    npts = 0
+    for rho in d_rhos(rho_inputs, seed):
+        bsel = (rho["b"],) if pin else ()
+        x0_ref = xstar[bsel] if pin else xstar
+        want_ld = float(ld["ref"](rho)) + float(np.asarray(ldj)[bsel] if (pin and np.ndim(ldj)) else ldj)
+        extra_ld, extra_subs = 0.0, {}
+        if two:
+            extra_ld = 0.25
+            if mode == "two-both":  # v = log(u): u0 = exp(q), log|d log u / du| = -q
+                extra_ld += -q
+                extra_subs["u"] = np.asarray(math.exp(q))
+            else:
+                extra_subs["v"] = np.asarray(q)
+        # funsor's own solution point (read from the term) must be the textbook inverse
+        try:
+            x0 = np.asarray(d_ground(terms[out_name][0], rho), dtype=np.float64)
+            x00 = np.asarray(d_ground(terms0[out_name][0], rho), dtype=np.float64)
+        except observe.Decline as e:
+            return core.decline(key, "point-" + str(e), 2)
+        if not close(x0, x0_ref, rtol=1e-6, atol=1e-9) or not np.array_equal(x0, x00):
+            return viol("point", "at %s: solution point %s, textbook inverse %s" % (rho, x0.tolist(), np.asarray(x0_ref).tolist()))
+        if mode == "two-both":
+            try:
+                u0 = np.asarray(d_ground(terms["u"][0], rho), dtype=np.float64)
+            except observe.Decline as e:
+                return core.decline(key, "point-" + str(e), 2)
+            if not close(u0, math.exp(q), rtol=1e-6):
+                return viol("point", "u solution %s, expected %s" % (u0.tolist(), math.exp(q)))
+            extra_subs["u"] = u0
+        for where, xv in (("solution", x0), ("elsewhere", x0 + 0.125)):
+            env = dict(rho)
+            env[out_name] = xv
+            env.update(extra_subs)
+            try:
+                got = float(d_ground(r, env))
+                got0 = float(d_ground(r0, env))
+            except observe.Decline as e:
+                return core.decline(key, str(e), 3)
+            npts += 1
+            want = want_ld + extra_ld if where == "solution" else NEG_INF
+            # (a) additivity in the log-density (differential, convention-free)
+            c_here = float(ld["ref"](rho))
+            if not close(got, got0 + c_here):
+                return viol("additivity", "at %s (%s, x=%s): with log_density %r the value is %r, but the same Delta "
+                            "with log_density 0 gives %r (+ %r expected)" % (rho, where, xv.tolist(), c_here, got, got0, c_here))
+            # (b) change-of-variables convention: c + log|dt/dx| at the solution, -inf elsewhere
+            if not close(got, want, rtol=1e-6, atol=1e-9):
+                return viol("value", "at %s (%s, x=%s): value %r, expected log_density + log|dt/dx| = %r"
+                            % (rho, where, xv.tolist(), got, want))
+        # (d) integration against a test function commutes: Integrate(result, 1 + |x|^2, x) = exp(ld) (1 + |x0|^2)
+        if not two:
+            try:
+                env2 = dict(ns)
+                env2["r"] = r
+                exec(lines[0], env2)
+                integ = eval("Integrate(r, 1.0 + (%s * %s).sum(), %r)" % (
+                    "zz" if out_name == "z" else "xx", "zz" if out_name == "z" else "xx", out_name), env2) \
+                    if pk == "v2" else eval("Integrate(r, 1.0 + %s * %s, %r)" % (
+                        "zz" if out_name == "z" else "xx", "zz" if out_name == "z" else "xx", out_name), env2)
+                gi = float(d_ground(integ, rho))
+            except observe.Decline:
+                gi = None
+            except Exception:  # noqa
+                gi = None
+            if gi is not None:
+                _TR_INTEGRATED[0] += 1
+                wi = math.exp(want_ld) * (1.0 + float((x0 * x0).sum()))
+                if not close(gi, wi, rtol=1e-6):
+                    return viol("integrate", "at %s: Integrate(result, 1+|x|^2) = %r, expected exp(log_density + "
+                                "log|J|) (1+|x0|^2) = %r" % (rho, gi, wi))
+    if npts == 0:
+        return core.skip(key, "reference-undefined-everywhere")
+    return core.ok(key, lk not in ("omit", "zero"), "D:tsubs:%s:%s" % (mode, "+".join(ts)), 4)
 
 
 def d_check_chain(key, case, seed, ns, A):
@@ -2198,6 +2399,16 @@ def bounds(tier):
             "multi": {"constructions": ["Delta(terms)", "Delta_x + Delta_i", "Delta_i + Delta_x"],
                       "points": D_MULTI_POINTS, "log_densities": D_MULTI_LDS, "substitutions": D_MULTI_SUBS,
                       "reduced_sets": ["x", "i", "xi"], "pool": len(d_pool2(A)), "chain": D_CHAIN_KINDS},
+            "transform_substitution": {
+                "transforms": list(TR), "declining_affine": list(TR_AFFINE), "log_density_kinds": TR_LDS,
+                "points": ["scalar", "batched over b", "Reals[2]"],
+                "modes": ["single", "compose t1(t2(x)) (all 25)", "chain d(y=t1(x))(x=t2(z)) (all 25)",
+                          "two-variable Delta: y only / y and v"],
+                "evaluated_at": "funsor's own solution point (must equal the textbook inverse) and solution + 0.125",
+                "oracles": ["additivity in log_density vs the same Delta with log_density 0",
+                            "value = log_density + sum of textbook log|dt/dx| at the solution, -inf elsewhere",
+                            "Integrate(result, 1+|x|^2, x) = exp(value) (1+|x0|^2)"],
+            },
             "free_real_inputs_points": 2,
         },
         "tensor_sampling": {
